@@ -149,6 +149,8 @@ type vConnEngine struct {
 	connHang        chan struct{}
 	holdDisc        int32
 	discHang        chan struct{}
+	shutdownIn      string // callback from which the application calls Shutdown (case option shutdownin=)
+	shutdownArmed   int32
 	climu           sync.Mutex
 	clients         []vCliState
 	wmu             sync.Mutex
@@ -287,6 +289,7 @@ func (ce *vConnEngine) OnConnect(ctx context.Context, c *Connection, cli Generic
 		}
 	}
 	ce.ev.add("onconnect/%d/%s", i, out)
+	ce.shutdownFrom("onconnect")
 	setState := func(st string) {
 		ce.climu.Lock()
 		ce.clients[ci].state = st
@@ -316,6 +319,7 @@ func (ce *vConnEngine) clientState(cli GenericClient) string {
 }
 func (ce *vConnEngine) OnConnectError(err error, d time.Duration) {
 	ce.ev.add("onconnecterror/d=%d/t=%d", int64(d), ce.ms())
+	ce.shutdownFrom("onconnecterror")
 }
 func (ce *vConnEngine) OnDoCommandError(err error, d time.Duration) {
 	if e, ok := err.(vRetriableErr); ok {
@@ -324,8 +328,28 @@ func (ce *vConnEngine) OnDoCommandError(err error, d time.Duration) {
 		ce.ev.add("ondocommanderror/?")
 	}
 }
+
+// shutdownFrom: the application shuts the Connection down from inside one of the sequence's own callbacks (once)
+func (ce *vConnEngine) shutdownFrom(cb string) {
+	if ce.shutdownIn == cb && atomic.CompareAndSwapInt32(&ce.shutdownArmed, 1, 0) {
+		ce.ev.add("shutdown/t=%d", ce.ms())
+		done := make(chan struct{})
+		go func() {
+			select {
+			case <-done:
+			case <-time.After(5 * time.Second):
+				ce.ev.add("timeout/shutdown-from-callback-never-returned")
+			}
+		}()
+		ce.conn.Shutdown()
+		close(done)
+		ce.ev.add("shutdown-end")
+	}
+}
+
 func (ce *vConnEngine) OnDisconnected(ctx context.Context, st DisconnectStatus) {
 	ce.ev.add("ondisconnected/%d/t=%d", st, ce.ms())
+	ce.shutdownFrom("ondisconnected")
 	if atomic.CompareAndSwapInt32(&ce.holdDisc, 1, 0) {
 		// a handler that is slow to return from the announcement
 		ce.ev.add("ondisconnected-held")
@@ -428,6 +452,9 @@ func vRunConn(c vCase) []string {
 		opts.InitialReconnectBackoffWindow = func() time.Duration { return time.Duration(w) * time.Millisecond }
 	}
 	ce.delayConfigured = opts.FirstConnectDelayDuration != 0 || opts.InitialReconnectBackoffWindow != nil
+	if cb := c.get("shutdownin"); cb != "" {
+		ce.shutdownIn, ce.shutdownArmed = cb, 1
+	}
 	ce.ev.add("new/lazy=%v/force=%v/t=%d", opts.DontConnectNow, opts.ForceInitialBackoff, ce.ms())
 	ce.conn = newConnectionWithTransportAndProtocolsWithLog(ce, ce, nil, vConnLog{ce}, opts)
 	for _, op := range strings.Split(c.get("script"), ";") {
